@@ -6,7 +6,19 @@
    commands:
      bervar <ty> <val> <ch>  -> hex | NONE
      varval <ty> <val> <ch>  -> val
-     c03dec <ty> <hex>       -> OK <consumed> <der of the decoded value> <val> | FAIL *)
+     c03dec <ty> <hex>       -> OK <consumed> <der of the decoded value> <val> | FAIL
+   OER variants (coq/Rt/OerVariants.v; the same choice trees: lf of a node = form of its length
+   determinant, 'p<z>;' on a SEQUENCE OF / SET OF node = z leading zero octets of the quantity):
+     oervar <ty> <val> <ch>        -> hex | NONE
+     oercdec <ty> <hex>            -> OK <consumed> <val> | FAIL      (the decoder of the C: oer_fetch_length everywhere)
+     xoervar <ety> <val> <ch>      -> hex | NONE        ety / values as in drv_ext.ml
+     xoercdec <ety> <hex>          -> OK <consumed> <val> | FAIL   (a leading std argument is accepted and ignored)
+   tag-to-member maps (coq/Rt/TagMap.v):  map := tag:el_no:toff_first:toff_last,... | -     els := tag:optional,... | -
+     t2mwf <map>                          -> 1 | 0
+     t2mfind <els> <map> <edx> <tag>      -> <member> | N          (SEQUENCE_decode_ber's search, glibc bsearch loop)
+     t2mpick <map> <tag> <edx> <edxmax>   -> bs=<index|N> probes=<i,..|-> picks=<k|N|X,..|-> spec=<k|N>
+                                             (one pick per entry bsearch() may return; X = outside the table)
+     t2mset <map> <tag>                   -> <member> | N          (SET / CHOICE) *)
 open Model
 open Drvlib
 
@@ -134,6 +146,48 @@ let ch_of s = let (c, p) = parse_ch s 0 in
 
 let hex_opt = function Some bs -> hex_of_bytes bs | None -> "NONE"
 
+(* ---- extensible types (copy of the parsers of drv_ext.ml bound to this area's types) ---- *)
+let parse_ety s : ety =
+  if String.length s = 0 then raise (Parse "ety expected");
+  match s.[0] with
+  | 'E' -> let (tg, p) = num_req s 1 in
+           let (root, p) = parse_tys s (expect s p '{') in
+           let (adds, p) = parse_tys s (expect s p '{') in
+           if p <> String.length s then raise (Parse "trailing ety text");
+           ESeq (tg, root, adds)
+  | 'H' -> let (root, p) = parse_tys s (expect s 1 '{') in
+           let (exts, p) = parse_tys s (expect s p '{') in
+           if p <> String.length s then raise (Parse "trailing ety text");
+           EChoice (root, exts)
+  | c -> raise (Parse (Printf.sprintf "bad ety char %c" c))
+
+let rec split_at n l = if n = 0 then ([], l) else match l with [] -> ([], []) | x :: tl -> let (a, b) = split_at (n - 1) tl in (x :: a, b)
+
+let eval_of (t : ety) (s : string) : eval =
+  match t, val_of s with
+  | ESeq (_, root, _), VSeq vs -> let (a, b) = split_at (List.length root) vs in EVSeq (a, b)
+  | EChoice _, VChoice (i, v) -> EVAlt (i, v)
+  | _ -> raise (Parse "value does not fit the extensible type")
+
+let show_eval = function
+  | EVSeq (a, b) -> show_val (VSeq (a @ b))
+  | EVAlt (i, v) -> show_val (VChoice (i, v))
+
+(* ---- tag-to-member maps ---- *)
+let split_on c s = if s = "-" || s = "" then [] else String.split_on_char c s
+let parse_map s : t2m list =
+  List.map (fun e -> match String.split_on_char ':' e with
+    | [t; n; f; l] -> { el_tag = cz_of_string t; el_no = nat_of_int (int_of_string n);
+                        toff_first = cz_of_string f; toff_last = cz_of_string l }
+    | _ -> raise (Parse "bad map entry")) (split_on ',' s)
+let parse_els s : (z * nat) list =
+  List.map (fun e -> match String.split_on_char ':' e with
+    | t :: o :: _ -> (cz_of_string t, nat_of_int (int_of_string o))
+    | _ -> raise (Parse "bad member entry")) (split_on ',' s)
+let nat_s = function Some k -> string_of_int (int_of_nat k) | None -> "N"
+let pick_s = function POutside -> "X" | PNone -> "N" | PSome k -> string_of_int (int_of_nat k)
+let list_s f l = if l = [] then "-" else String.concat "," (List.map f l)
+
 let dispatch cmd args =
   match cmd, args with
   | "bervar", [t; v; c] -> Some (hex_opt (ber_var (ty_of t) (ch_of c) (val_of v)))
@@ -143,4 +197,26 @@ let dispatch cmd args =
       (match ber_decode ty (bytes_of_hex h) with
        | Some (v, n) -> Some (Printf.sprintf "OK %s %s %s" (string_of_cz n) (hex_opt (der ty v)) (show_val v))
        | None -> Some "FAIL")
+  | "oervar", [t; v; c] -> Some (hex_opt (oer_var (ty_of t) (ch_of c) (val_of v)))
+  | "oercdec", [t; h] ->
+      (match oer_cdecode (ty_of t) (bytes_of_hex h) with
+       | Some (v, n) -> Some (Printf.sprintf "OK %s %s" (string_of_cz n) (show_val v))
+       | None -> Some "FAIL")
+  | "xoervar", [t; v; c] -> let t = parse_ety t in Some (hex_opt (ext_oer_var t (ch_of c) (eval_of t v)))
+  | "xoercdec", [t; h] | "xoercdec", [_; t; h] ->
+      (match ext_oer_cdecode (parse_ety t) (bytes_of_hex h) with
+       | Some (v, n) -> Some (Printf.sprintf "OK %s %s" (string_of_cz n) (show_eval v))
+       | None -> Some "FAIL")
+  | "t2mwf", [m] -> Some (if wf_mapb (parse_map m) then "1" else "0")
+  | "t2mfind", [e; m; edx; tag] ->
+      Some (nat_s (seq_find (parse_els e) (parse_map m) (nat_of_int (int_of_string edx)) (cz_of_string tag)))
+  | "t2mpick", [m; tag; edx; edxmax] ->
+      let m = parse_map m and tag = cz_of_string tag in
+      let edx = nat_of_int (int_of_string edx) and emax = nat_of_int (int_of_string edxmax) in
+      let ps = probes m tag edx in
+      Some (Printf.sprintf "bs=%s probes=%s picks=%s spec=%s" (nat_s (bsearch (seq_cmp tag edx) m))
+              (list_s (fun p -> string_of_int (int_of_nat p)) ps)
+              (list_s (fun p -> pick_s (seq_pick m p edx emax)) ps)
+              (nat_s (spec_pick m tag edx emax)))
+  | "t2mset", [m; tag] -> Some (nat_s (tag_find (parse_map m) (cz_of_string tag)))
   | _ -> None
